@@ -2,6 +2,7 @@
 
 G9 (proved, VCs over all arguments): AnyFrom / AnyButFrom / AnyBetween / AnyButBetween raise exactly the documented
 exceptions and hand `[...]` / `[^...]` with the requested characters, each special one escaped, to __Class.__init__.
+F4 (complete): AnyFrom(c) / AnyButFrom(c) for every code point c: the emitted pattern is the literal c / its negation.
 F (complete): every zero-argument Any*/AnyBut* class and every token - membership of EVERY code point against the
 documented set, complement law, ~A == AnyBut*.  B2 (bounded, labelled): the parametric constructors AnyFrom / AnyButFrom /
 AnyBetween / AnyButBetween over the distinguished characters (bracket and regex metacharacters, letters, digits, control
@@ -33,6 +34,16 @@ def run(rep, tier):
         rep.violation(f"class text of {b['class']} has an escape __process misreads", b, {"kind": "expr", "expr": b["class"] + "()"}, witness=b["class"] + "()")
     rep.assumptions.append("G9 pins the bracket text given to __Class.__init__; what __process / re make of that text is the "
                            "bounded part (B2) and the complete part over named classes (F)")
+    # F4: single-character classes over ALL code points (the one-character collapse of __process and its escaping)
+    f4 = native("run_module", {"module": "pvc.bex_misc", "func": "single_character_classes"}, timeout=1800)
+    rep.ob(f"F4: AnyFrom(c) parses to the literal c and AnyButFrom(c) to 'not c' for every code point ({f4['code_points']})",
+           "discharged" if not f4["bad"] else "failed", "cpython-exhaustive", 0, kind="finite")
+    rep.finite.append({"what": "AnyFrom(c) / AnyButFrom(c) for every code point c: the emitted pattern is the literal c / its negation",
+                       "evaluations": 2 * f4["code_points"], "distinct_nontrivial": 2 * f4["code_points"], "exhaustive": True,
+                       "rule": "code points x {AnyFrom, AnyButFrom}"})
+    for cp in f4["bad"][:3]:
+        e = f"AnyFrom(chr({cp}))"
+        rep.violation(f"F4: {e} is not the literal U+{cp:04X}", {"code_point": cp}, {"kind": "expr", "expr": e}, witness=e)
     rep.trusted += ["R7 bracket expressions", "specs/charsets.py (documented sets / Unicode blocks)"]
     rep.assumptions += ["code points that only the Unicode-aware shorthands \\d \\s \\w add are left unspecified (masked)",
                         "'for any characters at all' is sampled by the distinguished characters and their neighbours (bounded)"]
